@@ -228,10 +228,19 @@ func Ite(c, a, b *Term) *Term {
 	return App("ite", a.Sort, c, a, b)
 }
 
+// defOf: definitions of named heap versions (v = store(...)), so that reads through a freshly
+// written version simplify syntactically.
+var defOf = map[string]*Term{}
+
 func Select(arr, idx *Term) *Term {
 	_, e := arrParts(arr.Sort)
 	if e == "" {
 		panic("select on non-array " + arr.Sort + " " + arr.String())
+	}
+	if arr.Kind == kVar {
+		if d, ok := defOf[arr.Op]; ok && d.Kind == kApp && d.Op == "store" && d.Args[1].String() == idx.String() {
+			return d.Args[2]
+		}
 	}
 	// select(store(a,i,v), i) = v (syntactic)
 	if arr.Kind == kApp && arr.Op == "store" && arr.Args[1].String() == idx.String() {
